@@ -220,7 +220,7 @@ impl Property for Sources {
     fn budget(&self, tier: Tier) -> Budget {
         Budget {
             cases: tier.pick(250_000, 15_000_000),
-            tape_len: 900,
+            tape_len: 2500,
         }
     }
     fn decode(&self, t: &mut Tape<'_>) -> SrcCase {
